@@ -450,7 +450,8 @@ def mask_vals(f, maskdef, metakeys=_metakeys):
     mval = ','.join(maskdef.split(',')[1:])
     if mtype == 'where':
         maskexpr = 'np.ma.masked_where(mask, var[:].view(np.ndarray))'
-        # mask = eval(mval, None, f.variables)
+        # the condition is an expression over the variables of the file
+        mask = eval(mval, None, dict(f.variables))  # noqa: F841
     else:
         maskexpr = 'np.ma.masked_%s(var[:], %s)' % (mtype, mval)
     for varkey, var in f.variables.items():
